@@ -44,8 +44,25 @@ func runChannelBatches(c *core.Ctx) {
 			n = q
 		}
 		var used []int
+		// the application holds pooled buffers of its own and writes empty slices of them (capacity = a pool class)
+		var own []*[]byte
 		for k := 0; k < n; k++ {
 			s := sizes[rng.Intn(len(sizes))]
+			if rng.Intn(4) == 0 {
+				o := pbytes.Get([]int{1024, 2048, 4096}[rng.Intn(3)])
+				own = append(own, o)
+				used = append(used, 0)
+				switch rng.Intn(3) {
+				case 0:
+					rig.Ch.Write1((*o)[:0])
+				case 1:
+					rig.Ch.Write((*o)[:0])
+				default:
+					rig.Ch.Writev([][]byte{(*o)[:0]})
+				}
+				c.Count("channel_empty_writes_from_pooled_buffers", 1)
+				continue
+			}
 			used = append(used, s)
 			rig.Ch.Write1(mon.Payload(1, k, s))
 		}
@@ -80,6 +97,10 @@ func runChannelBatches(c *core.Ctx) {
 		c.Count("histories", 1)
 		held := map[uintptr]int{}
 		var keep []*[]byte
+		for _, o := range own {
+			// still held by the application: nobody else may be handed this memory
+			held[uintptr(unsafe.Pointer(&(*o)[:1][0]))] = -cap(*o)
+		}
 		bad := ""
 		for _, want := range []int{3000, 1500, 1024, 700, 300, 100, 2048, 512} {
 			for k := 0; k < 4 && bad == ""; k++ {
@@ -94,7 +115,11 @@ func runChannelBatches(c *core.Ctx) {
 				if cap(*p) > 0 {
 					addr := uintptr(unsafe.Pointer(&(*p)[:1][0]))
 					if prev, dup := held[addr]; dup {
-						bad = fmt.Sprintf("pbytes.Get(%d) handed out the backing array that an earlier Get(%d) still holds, after a queued channel had sent and recycled a batch of payload sizes %v", want, prev, used)
+						holder := fmt.Sprintf("an earlier Get(%d)", prev)
+						if prev < 0 {
+							holder = fmt.Sprintf("the application (a pooled buffer of capacity %d of which it had written an empty slice through the channel)", -prev)
+						}
+						bad = fmt.Sprintf("pbytes.Get(%d) handed out the backing array that %s still holds, after a queued channel had sent and recycled a batch of payload sizes %v", want, holder, used)
 						c.Violation("C19:buffer-handed-out-twice-after-channel-batch", id, bad, nil)
 						break
 					}
